@@ -130,7 +130,8 @@ def _start_worker(kind):
     if kind == "san":
         pre += [runner._libasan(), runner.libubsan()]
         env["ASAN_OPTIONS"] = runner.ASAN_OPTIONS + ":handle_abort=1:handle_sigfpe=1:verify_asan_link_order=0"
-        env["UBSAN_OPTIONS"] = runner.UBSAN_OPTIONS
+        # in the query library every UBSan report is fatal, the arithmetic classes too: "returns a defined neutral value"
+        env["UBSAN_OPTIONS"] = runner.UBSAN_OPTIONS + ":halt_on_error=1"
     pre.append(build.shim("simos"))
     env["LD_PRELOAD"] = ":".join(pre)
     scratch = runner.fresh_dir("dbw-%07d-%s" % (os.getpid(), kind))
